@@ -275,11 +275,39 @@ pub fn run_bounds(cx: &Cx, rep: &mut Report, rules: &[&str]) {
     rep.floor("field-level default-bound judgements", JUDGED.with(|c| c.get()), if collapse { 1000 } else { 4000 });
 }
 
+/// ES-type-items-empty: the invariant the trace analysis relies on - at type level the helper attributes are parsed with a
+/// copy of the helper-kind set whose `derive_ex` flag is off (the item's own `#[derive_ex(..)]` lists are the derive
+/// entries themselves, not nested entries)
+fn type_items_empty_rule(cx: &Cx, rep: &mut Report) {
+    use crate::eval::{Flow, St, Ty, Val};
+    use crate::misc::{find_fn, sig_text};
+    let ix = &cx.ix;
+    let Some(f) = find_fn(ix, &|f| f.self_ty.as_deref() == Some("HelperAttributeKinds") && f.sig.inputs.len() == 1 && f.sig.receiver().is_some() && (sig_text(f).ends_with("->HelperAttributeKinds") || sig_text(f).ends_with("->Self"))) else {
+        rep.fail("unanalysable", "HelperAttributeKinds", "without_derive_ex", "(&self) -> HelperAttributeKinds not found", "item_type.rs", json!({})); return;
+    };
+    let ev = mk_ev(ix);
+    let outs = ev.call_fn(St::new(), &f, Some(Val::Sym { ty: Ty::Named("HelperAttributeKinds".into(), vec![]), path: "kinds".into() }), vec![]);
+    let de = ix.structs.get("HelperAttributeKinds").and_then(|s| s.fields.iter().find(|(n, _)| n.contains("derive_ex")).map(|(n, _)| n.clone())).unwrap_or("derive_ex".into());
+    let ok = outs.len() == 1 && match &outs[0].1 { Flow::Val(Val::Struct { fields, .. }) | Flow::Ret(Val::Struct { fields, .. }) => {
+        fields.iter().any(|(n, v)| *n == de && matches!(v, Val::Bool(false))) && fields.iter().filter(|(n, _)| *n != de).all(|(n, v)| if n == ".." { matches!(v, Val::Sym { path, .. } if path == "kinds") } else { v.any(&|y| matches!(y, Val::Atom(crate::eval::F::A(a)) if *a == format!("kinds.{n}")) || matches!(y, Val::Sym { path, .. } if *path == format!("kinds.{n}"))) })
+    } _ => false };
+    rep.check(ok, "ES-type-items-empty", &f.qual, "flag-off", &format!("the helper-kind set used for the type's own attributes is not `the same set with derive_ex switched off`: {:?}", outs.iter().map(|(_, fl)| match fl { Flow::Val(v) | Flow::Ret(v) => v.short(), _ => "?".into() }).collect::<Vec<_>>()), &format!("{}:{} {}", f.file, f.line, f.qual), json!({}));
+    // and both entry cores use it for the type-level parse
+    let cg = crate::roles::CallGraph::build(ix);
+    for kind in ["struct", "enum"] {
+        let Some(role) = cx.roles.iter().find(|r| r.item_kind == kind) else { continue };
+        let core = crate::roles::entry_core(ix, &role.core, kind);
+        let reach = cg.reachable(&[core.qual.clone()]);
+        rep.check(reach.contains(&f.qual), "ES-type-items-empty", &core.qual, "used", "the entry core does not derive the type-level helper-kind set through that function", &format!("{}:{} {}", core.file, core.line, core.qual), json!({}));
+    }
+}
+
 pub fn c04(cx: &Cx) -> i32 {
     let mut rep = cx.report("C04");
     run_bounds(cx, &mut rep, &["ES-bounds-trace", "ES-default-after-stop"]);
     crate::misc::bound_parse_rule(cx, &mut rep);
     crate::misc::wcb_rule(cx, &mut rep);
+    type_items_empty_rule(cx, &mut rep);
     rep.assumptions = vec![
         "the type-level helper-attribute set carries no derive_ex entries (it is built with derive_ex = false; those entries are the derive entries themselves)".into(),
         "whether an ignored / unused field reaches its field-level bound(...) is not documented and not judged".into(),
